@@ -1,4 +1,353 @@
-/-! Model/C05 — executable model (core Lean only; imports only NibabelModel.Basic.* / other Model files). -/
+/-
+  Model/C05 — executable model of the code that rearranges or crops the voxel grid and must keep
+  every voxel at its world position (core Lean only).
+
+  Python source modelled (pinned tree, after the `fix:` commit 1bdf40c8 for `slice_affine`):
+  * nibabel/spatialimages.py:380-462  SpatialFirstSlicer.__getitem__ / check_slicing / slice_affine
+    (on `fileslice.canonical_slicers`, re-used from Model/C06);
+  * nibabel/spatialimages.py:662-690  SpatialImage.as_reoriented;
+  * nibabel/nifti1.py:2376-2405       Nifti1Pair.as_reoriented (dim_info remap);
+  * nibabel/orientations.py           io_orientation (from the polar factor `R` onward: lines 72-91),
+                                      ornt_transform, apply_orientation, inv_ornt_aff, ornt2axcodes,
+                                      axcodes2ornt;
+  * nibabel/funcs.py:180-215          as_closest_canonical (+ `_aff_is_diag` on integer affines).
+
+  Conventions
+  * a 4x4 affine with last row (0,0,0,1) is three rows `(a b c t)`; `Aff.comp A B` is `A.dot(B)`;
+  * an array is identified with its *gather*: the result of an operation is an output shape plus a
+    function `src` from output multi-indices to input multi-indices (the driver prints, for every
+    output voxel in C order, the C-order element number of its source voxel; the harness fills the
+    input with exactly those numbers);
+  * external: `numpy.linalg.svd` inside `io_orientation` — the polar factor `R` is an input of the
+    model, given as an integer matrix (the float entries scaled by a power of two, which is exact)
+    together with the scaled `allclose` tolerance.
+-/
+import NibabelModel.Basic.PySlice
+import NibabelModel.Model.C06
 namespace Nb.C05
+open Nb
+open Nb.C06 (IdxItem Item Sel canonicalSlicers itemsSels outShape)
+
+/-! ### affines -/
+
+/-- one row `(a b c | t)` of a 3-D affine -/
+structure Row (R : Type) where
+  a : R
+  b : R
+  c : R
+  t : R
+  deriving Repr, DecidableEq, Inhabited
+
+/-- rows 0..2 of a 4x4 affine whose last row is `(0 0 0 1)` -/
+structure Aff (R : Type) where
+  r0 : Row R
+  r1 : Row R
+  r2 : Row R
+  deriving Repr, DecidableEq, Inhabited
+
+section generic
+variable {R : Type} [Add R] [Mul R]
+
+def Row.apply (r : Row R) (x y z : R) : R := r.a * x + r.b * y + r.c * z + r.t
+
+/-- `A @ (x, y, z, 1)` (first three components) -/
+def Aff.apply (A : Aff R) (x y z : R) : R × R × R :=
+  (A.r0.apply x y z, A.r1.apply x y z, A.r2.apply x y z)
+
+/-- one row of `A.dot(B)` -/
+def Row.comp (r : Row R) (B : Aff R) : Row R :=
+  ⟨r.a * B.r0.a + r.b * B.r1.a + r.c * B.r2.a,
+   r.a * B.r0.b + r.b * B.r1.b + r.c * B.r2.b,
+   r.a * B.r0.c + r.b * B.r1.c + r.c * B.r2.c,
+   r.a * B.r0.t + r.b * B.r1.t + r.c * B.r2.t + r.t⟩
+
+/-- `A.dot(B)` for homogeneous 4x4 matrices -/
+def Aff.comp (A B : Aff R) : Aff R := ⟨A.r0.comp B, A.r1.comp B, A.r2.comp B⟩
+
+/-- `transform = eye(4); transform[i,i] = step_i; transform[i,3] = start_i` (slice_affine) -/
+def scaleShift [OfNat R 0] (p0 p1 p2 s0 s1 s2 : R) : Aff R :=
+  ⟨⟨p0, 0, 0, s0⟩, ⟨0, p1, 0, s1⟩, ⟨0, 0, p2, s2⟩⟩
+
+end generic
+
+def Aff.toList (A : Aff Int) : List Int :=
+  [A.r0.a, A.r0.b, A.r0.c, A.r0.t, A.r1.a, A.r1.b, A.r1.c, A.r1.t, A.r2.a, A.r2.b, A.r2.c, A.r2.t]
+
+inductive PyErr where
+  | index        -- IndexError
+  | value        -- ValueError
+  | orientation  -- OrientationError
+  deriving Repr, DecidableEq, Inhabited
+
+/-! ### gathers: arrays as index maps -/
+
+/-- all multi-indices of `shape` in C order -/
+def allIdx : List Nat → List (List Nat)
+  | [] => [[]]
+  | n :: ns => (List.range n).flatMap (fun i => (allIdx ns).map (fun r => i :: r))
+
+/-- C-order element number of `idx` in an array of shape `shape` -/
+def ravelC (shape idx : List Nat) : Nat :=
+  (shape.zip idx).foldl (fun acc p => acc * p.1 + p.2) 0
+
+/-- source multi-index of output multi-index `j` under per-axis selectors (NumPy basic indexing) -/
+def srcIdx : List Sel → List Nat → List Nat
+  | [], _ => []
+  | .one i :: r, j => i :: srcIdx r j
+  | .many l :: r, j0 :: j => l.getD j0 0 :: srcIdx r j
+  | .many _ :: r, [] => 0 :: srcIdx r []
+  | .new :: r, _ :: j => srcIdx r j
+  | .new :: r, [] => srcIdx r []
+
+/-! ### SpatialFirstSlicer -/
+
+/-- `start, _, step = s.indices(n)` → the 1-D map `j ↦ start + step*j` of `slice_affine` -/
+def sliceAffine (A : Aff Int) (s0 s1 s2 : PySlice) (n0 n1 n2 : Nat) : Aff Int :=
+  A.comp (scaleShift (s0.indices n0).2.2 (s1.indices n1).2.2 (s2.indices n2).2.2
+                     (s0.indices n0).1 (s1.indices n1).1 (s2.indices n2).1)
+
+/-- the pinned (pre-fix) logic: `step = s.step if s.step is not None else 1`, `start = s.start or 0` -/
+def sliceAffineOrig (A : Aff Int) (s0 s1 s2 : PySlice) : Aff Int :=
+  A.comp (scaleShift (s0.step.getD 1) (s1.step.getD 1) (s2.step.getD 1)
+                     (s0.start.getD 0) (s1.start.getD 0) (s2.start.getD 0))
+
+structure SliceOut where
+  shape  : List Nat
+  affine : Aff Int
+  sels   : List Sel
+  deriving Repr, DecidableEq
+
+def itemZeroStep : Item → Bool
+  | .slice s => s.step == some 0
+  | _ => false
+
+/-- `img.slicer[idx]` for an in-memory image of shape `shape` and affine `A`.
+    check_slicing: canonical_slicers (ValueError → IndexError), first three canonical items must be
+    slices; NumPy indexing (zero step → ValueError); empty result → IndexError; slice_affine. -/
+def slicer (A : Aff Int) (shape : List Nat) (idx : List IdxItem) : Except PyErr SliceOut :=
+  match canonicalSlicers idx shape with
+  | .error _ => .error .index
+  | .ok can =>
+    match can, shape with
+    | .slice s0 :: .slice s1 :: .slice s2 :: crest, n0 :: n1 :: n2 :: nrest =>
+      match itemsSels crest nrest with
+      | .error _ => .error .index
+      | .ok rsels =>
+        if can.any itemZeroStep then .error .value
+        else
+          let sels := Sel.many (s0.sel n0) :: Sel.many (s1.sel n1) :: Sel.many (s2.sel n2) :: rsels
+          if (outShape sels).any (· == 0) then .error .index
+          else .ok ⟨outShape sels, sliceAffine A s0 s1 s2 n0 n1 n2, sels⟩
+    | _, _ => .error .index
+
+/-- the data of the sliced image: source element number of every output voxel (C order) -/
+def SliceOut.data (o : SliceOut) (inShape : List Nat) : List Nat :=
+  (allIdx o.shape).map (fun j => ravelC inShape (srcIdx o.sels j))
+
+/-! ### orientations -/
+
+/-- an orientation without dropped axes: one row `(output axis, flip)` per input axis -/
+abbrev Ornt := List (Nat × Int)
+/-- orientation rows as `io_orientation`/`axcodes2ornt` return them: `none` = `[nan, nan]` -/
+abbrev OrntN := List (Option (Nat × Int))
+
+def OrntN.toOrnt (o : OrntN) : Option Ornt := o.mapM id
+
+/-- rows are `(σ i, ±1)` with `σ` a permutation of `range n` -/
+def Ornt.valid (o : Ornt) : Bool :=
+  o.all (fun r => r.2 == 1 || r.2 == -1) &&
+  (List.range o.length).all (fun k => (o.filter (fun r => r.1 == k)).length == 1)
+
+/-- insert index `i` (key `keys[i]`) into a list of indices sorted by key, after equal keys (stable) -/
+def insertByKey (key : Nat → Nat) (i : Nat) : List Nat → List Nat
+  | [] => [i]
+  | h :: t => if key i < key h then i :: h :: t else h :: insertByKey key i t
+
+/-- `np.argsort(keys)` (stable; keys are distinct for valid orientations) -/
+def argsort (keys : List Nat) : List Nat :=
+  (List.range keys.length).foldl (fun acc i => insertByKey (fun k => keys.getD k 0) i acc) []
+
+/-- shape of `apply_orientation(arr, ornt)`: flips keep the shape, then
+    `transpose(full_transpose)` with `full_transpose[:n] = argsort(ornt[:,0])` -/
+def applyOrntShape (shape : List Nat) (o : Ornt) : List Nat :=
+  (argsort (o.map (·.1))).map (fun k => shape.getD k 0) ++ shape.drop o.length
+
+/-- gather of `apply_orientation`: `out[j] = flipped[x]` with `x[perm[k]] = j[k]`, and
+    `flipped[x] = arr[x']`, `x'_i = n_i - 1 - x_i` on flipped axes. -/
+def applyOrntSrc (shape : List Nat) (o : Ornt) (j : List Nat) : List Nat :=
+  let perm := argsort (o.map (·.1))
+  let x := (List.range o.length).map (fun i => j.getD (perm.idxOf i) 0)
+  let x' := (List.range o.length).map (fun i =>
+    if (o.getD i (0, 1)).2 = -1 then shape.getD i 0 - 1 - x.getD i 0 else x.getD i 0)
+  x' ++ j.drop o.length
+
+/-- row `k` of `np.eye(4)`, `k < 3` -/
+def unitRow (k : Nat) : Row Int :=
+  ⟨if k = 0 then 1 else 0, if k = 1 then 1 else 0, if k = 2 then 1 else 0, 0⟩
+
+/-- `(flip * center_trans) - center_trans` with `center_trans = -(n - 1) / 2.0`; the value is
+    integral for `flip = ±1` (the only flips a valid orientation has), so it is computed as
+    `(flip * c2 - c2) / 2` with `c2 = -(n - 1)`. -/
+def flipTrans (n : Nat) (f : Int) : Int := (f * (-((n : Int) - 1)) - (-((n : Int) - 1))) / 2
+
+/-- `inv_ornt_aff(ornt, shape)` for `p = 3`: `np.dot(undo_flip, undo_reorder)` -/
+def invOrntAff (o : Ornt) (shape : List Nat) : Option (Aff Int) :=
+  match o, shape with
+  | [(a0, f0), (a1, f1), (a2, f2)], n0 :: n1 :: n2 :: _ =>
+      let undoReorder : Aff Int := ⟨unitRow a0, unitRow a1, unitRow a2⟩
+      let undoFlip : Aff Int := scaleShift f0 f1 f2 (flipTrans n0 f0) (flipTrans n1 f1) (flipTrans n2 f2)
+      some (undoFlip.comp undoReorder)
+  | _, _ => none
+
+def identityOrnt : Ornt := [(0, 1), (1, 1), (2, 1)]
+
+/-- `(freq, phase, slice)` of `header.get_dim_info()` -/
+abbrev DimInfo := List (Option Nat)
+
+/-- nifti1 `as_reoriented`: `None if d is None else int(ornt[d, 0])` -/
+def dimInfoReorient (o : Ornt) (d : DimInfo) : DimInfo :=
+  d.map (fun x => x.map (fun k => (o.getD k (0, 1)).1))
+
+structure ReorOut where
+  same    : Bool              -- `return self`
+  shape   : List Nat
+  affine  : Aff Int
+  ornt    : Ornt              -- the orientation applied (gather = `applyOrntSrc inShape ornt`)
+  dimInfo : DimInfo
+  deriving Repr, DecidableEq
+
+/-- `Nifti1Image.as_reoriented(ornt)` for a 3-row orientation (valid rows or NaN rows) -/
+def asReoriented (A : Aff Int) (shape : List Nat) (d : DimInfo) (o : OrntN) : Except PyErr ReorOut :=
+  match o.toOrnt with
+  | none => .error .orientation          -- apply_orientation: NaN in ornt[:,0]
+  | some oo =>
+    if oo = identityOrnt then .ok ⟨true, shape, A, oo, d⟩
+    else if shape.length < oo.length then .error .orientation
+    else match invOrntAff oo shape with
+      | none => .error .value
+      | some inv => .ok ⟨false, applyOrntShape shape oo, A.comp inv, oo, dimInfoReorient oo d⟩
+
+/-- source voxel (in the input image) of output voxel `j` -/
+def ReorOut.src (r : ReorOut) (inShape : List Nat) (j : List Nat) : List Nat :=
+  if r.same then j else applyOrntSrc inShape r.ornt j
+
+def ReorOut.data (r : ReorOut) (inShape : List Nat) : List Nat :=
+  (allIdx r.shape).map (fun j => ravelC inShape (r.src inShape j))
+
+/-! ### ornt_transform, axis codes -/
+
+/-- index of the first row of `start` whose output axis is `k` -/
+def findOut (start : Ornt) (k : Nat) : Option Nat :=
+  let i := (start.map (·.1)).idxOf k
+  if i < start.length then some i else none
+
+/-- the double loop of `ornt_transform`; `res` is the `np.empty_like` buffer (`none` = never written) -/
+def orntTransformLoop (start : Ornt) : List (Nat × Int) → Nat → OrntN → Except PyErr OrntN
+  | [], _, res => .ok res
+  | (endOut, endFlip) :: rest, endIn, res =>
+    match findOut start endOut with
+    | none => .error .value
+    | some si =>
+      let flip : Int := if (start.getD si (0, 1)).2 = endFlip then 1 else -1
+      orntTransformLoop start rest (endIn + 1) (res.set si (some (endIn, flip)))
+
+def orntTransform (start end_ : Ornt) : Except PyErr OrntN :=
+  if start.length ≠ end_.length then .error .value
+  else orntTransformLoop start end_ 0 (List.replicate start.length none)
+
+/-- default labels `(('L','R'),('P','A'),('I','S'))` -/
+def labels : List (Char × Char) := [('L', 'R'), ('P', 'A'), ('I', 'S')]
+
+/-- `ornt2axcodes(ornt)`; `none` code = Python `None` (dropped axis) -/
+def ornt2axcodes : OrntN → Except PyErr (List (Option Char))
+  | [] => .ok []
+  | none :: rest => do
+      let r ← ornt2axcodes rest
+      pure (none :: r)
+  | some (ax, dir) :: rest =>
+      if dir = 1 then
+        match labels[ax]? with
+        | none => .error .index
+        | some (_, pos) => do
+          let r ← ornt2axcodes rest
+          pure (some pos :: r)
+      else if dir = -1 then
+        match labels[ax]? with
+        | none => .error .index
+        | some (neg, _) => do
+          let r ← ornt2axcodes rest
+          pure (some neg :: r)
+      else .error .value
+
+/-- inner loop of `axcodes2ornt` for one code -/
+def codeRow (code : Char) : List (Char × Char) → Nat → Option (Nat × Int)
+  | [], _ => none
+  | (neg, pos) :: rest, k =>
+      if code = neg then some (k, -1)
+      else if code = pos then some (k, 1)
+      else codeRow code rest (k + 1)
+
+/-- `axcodes2ornt(axcodes)` -/
+def axcodes2ornt (codes : List (Option Char)) : Except PyErr OrntN :=
+  if codes.all (fun c => match c with
+      | none => true
+      | some ch => labels.any (fun l => l.1 == ch || l.2 == ch)) then
+    .ok (codes.map (fun c => match c with
+      | none => none
+      | some ch => codeRow ch labels 0))
+  else .error .value
+
+/-! ### io_orientation from the polar factor onward -/
+
+def colOf (R : List (List Int)) (c : Nat) : List Int := R.map (fun row => row.getD c 0)
+
+/-- `np.argmax(np.abs(col))`: first index of the largest absolute value;
+    `best`/`bi` = running maximum and its index, `i` = current index -/
+def argmaxAbsAux : List Int → Nat → Nat → Nat → Nat
+  | [], _, _, bi => bi
+  | x :: xs, i, best, bi =>
+      if best < x.natAbs then argmaxAbsAux xs (i + 1) x.natAbs i
+      else argmaxAbsAux xs (i + 1) best bi
+
+def argmaxAbs : List Int → Nat
+  | [] => 0
+  | x :: xs => argmaxAbsAux xs 1 x.natAbs 0
+
+/-- `R[out_ax, :] = 0` -/
+def zeroRow (R : List (List Int)) (r : Nat) : List (List Int) :=
+  R.set r ((R.getD r []).map (fun _ => 0))
+
+/-- the loop `for in_ax in range(p)` of `io_orientation` (orientations.py:80-91);
+    `np.allclose(col, 0)` ⇔ every `|x| ≤ tol` (tol = the scaled `atol`) -/
+def ioGreedy (tol : Nat) : List Nat → List (List Int) → OrntN
+  | [], _ => []
+  | c :: cs, R =>
+      let col := colOf R c
+      if col.all (fun x => x.natAbs ≤ tol) then none :: ioGreedy tol cs R
+      else
+        let r := argmaxAbs col
+        some (r, if col.getD r 0 < 0 then -1 else 1) :: ioGreedy tol cs (zeroRow R r)
+
+/-- `io_orientation` given the polar factor `R` (q rows, p columns) -/
+def ioOrientation (R : List (List Int)) (p : Nat) (tol : Nat) : OrntN :=
+  ioGreedy tol (List.range p) R
+
+/-- `_aff_is_diag` on an integer affine: `np.allclose(rzs, diag(diag(rzs)))` ⇔ off-diagonal = 0 -/
+def affIsDiag (A : Aff Int) : Bool :=
+  A.r0.b == 0 && A.r0.c == 0 && A.r1.a == 0 && A.r1.c == 0 && A.r2.a == 0 && A.r2.b == 0
+
+/-- `as_closest_canonical(img, enforce_diag)` with the polar factor of `img.affine` supplied -/
+def asClosestCanonical (A : Aff Int) (shape : List Nat) (d : DimInfo) (R : List (List Int)) (tol : Nat)
+    (enforceDiag : Bool) : Except PyErr (OrntN × ReorOut) :=
+  let o := ioOrientation R 3 tol
+  match asReoriented A shape d o with
+  | .error e => .error e
+  | .ok r => if enforceDiag && !affIsDiag r.affine then .error .orientation else .ok (o, r)
+
+/-- the 48 signed permutations of three axes -/
+def allOrnts3 : List Ornt :=
+  [[0, 1, 2], [0, 2, 1], [1, 0, 2], [1, 2, 0], [2, 0, 1], [2, 1, 0]].flatMap (fun (p : List Nat) =>
+    [[1, 1, 1], [1, 1, -1], [1, -1, 1], [1, -1, -1], [-1, 1, 1], [-1, 1, -1], [-1, -1, 1], [-1, -1, -1]].map
+      (fun (f : List Int) => p.zip f))
 
 end Nb.C05
